@@ -1,4 +1,4 @@
-import DFV.Lemmas.C07SelFld
+import DFV.Lemmas.C07Resample
 /-!
 # C07 — sub-selection, padding and resampling keep every value at its physical position
 
@@ -396,5 +396,552 @@ theorem sel_range_pointwise (f : Fld) (hf : f.mesh.Inv) (dim : String) (x y : Ra
         refine ⟨hp, ?_, ?_⟩
         · rw [q2]; rfl
         · rw [q3]; rfl
+
+/-! ## Extraction by region / by name, `region2slices` -/
+
+/-- `mesh[region]` returns the smallest block of whole source cells containing the box: on
+every axis the block is cells `i₁ … i₂` of the source (corners on source faces, same cell
+size, `n = i₂ - i₁ + 1`), it contains `[item.lo, item.hi]`, and dropping its first or its last
+layer of cells would uncover part of the box. -/
+theorem getRegion_smallest (m : Mesh) (hm : m.Inv) (item : Region) (hbox : BoxIn m item) (g : Mesh)
+    (h : getRegion m item = .ok g) :
+    g.ndim = m.ndim ∧ g.region.dims = m.region.dims ∧ g.region.units = m.region.units ∧
+    ∀ a, a < m.ndim →
+      ∃ i1 i2 : Nat, i1 ≤ i2 ∧ i2 < m.nAt a ∧
+        g.region.lo a = m.region.lo a + (i1 : Rat) * m.cellAt a ∧
+        g.region.hi a = m.region.lo a + ((i2 : Rat) + 1) * m.cellAt a ∧
+        g.nAt a = i2 - i1 + 1 ∧ g.cellAt a = m.cellAt a ∧
+        g.region.lo a ≤ item.lo a ∧ item.hi a ≤ g.region.hi a ∧
+        item.lo a < g.region.lo a + m.cellAt a ∧ g.region.hi a - m.cellAt a < item.hi a := by
+  obtain ⟨e1, _, e3, e4, _, _, _, _, e9⟩ := getRegion_inv m hm item hbox g h
+  refine ⟨e1, e3, e4, ?_⟩
+  intro a ha
+  obtain ⟨hle, hlt, hU, blk⟩ := e9 a ha
+  obtain ⟨b1, b2, b3⟩ := hbox.2 a ha
+  have hc := inv_cell_pos hm ha
+  have hn := inv_n_pos hm ha
+  have hhi := block_hi blk (by omega)
+  have hcast : ((blockHi m item a - blockLo m item a + 1 : Nat) : Rat)
+      = (blockHi m item a : Rat) - (blockLo m item a : Rat) + 1 := by
+    push_cast [Nat.cast_sub hle]; ring
+  have hcont := index_contains m a (item.lo a) hn (inv_lo_lt_hi hm ha) b1 (by linarith)
+  have hub := upperIdx_bounds m a (item.hi a) hc
+  have hUr : (upperIdx m a (item.hi a) : Rat) = (blockHi m item a : Rat) := by
+    rw [hU]; push_cast; rfl
+  rw [hUr] at hub
+  have hhi' : g.region.hi a = m.region.lo a + ((blockHi m item a : Rat) + 1) * m.cellAt a := by
+    rw [hhi, hcast]; ring
+  refine ⟨blockLo m item a, blockHi m item a, hle, hlt, blk.lo, hhi', blk.n, blk.cell, ?_, ?_, ?_, ?_⟩
+  · rw [blk.lo]; exact hcont.1
+  · rw [hhi']; exact hub.2
+  · rw [blk.lo]
+    rcases hcont.2 with h2 | ⟨_, h2⟩
+    · unfold blockLo; linarith
+    · linarith
+  · rw [hhi']; linarith [hub.1]
+
+/-- For a vertex-aligned box the block is exactly the box. -/
+theorem getRegion_aligned_exact (m : Mesh) (hm : m.Inv) (item : Region) (k1 k2 : Nat → Nat)
+    (hal : SubAligned m item k1 k2) (g : Mesh) (h : getRegion m item = .ok g) :
+    ∀ a, a < m.ndim → g.region.lo a = item.lo a ∧ g.region.hi a = item.hi a ∧ g.nAt a = k2 a - k1 a := by
+  have hbox : BoxIn m item := by
+    refine ⟨hal.1, ?_⟩
+    intro a ha
+    obtain ⟨t1, t2, t3, t4⟩ := hal.2.2 a ha
+    have hc := inv_cell_pos hm ha
+    have h12 : (k1 a : Rat) < (k2 a : Rat) := by exact_mod_cast t1
+    have h2n : (k2 a : Rat) ≤ (m.nAt a : Rat) := by exact_mod_cast t2
+    have h0 : (0 : Rat) ≤ (k1 a : Rat) := by exact_mod_cast Nat.zero_le _
+    rw [t3, t4, hi_eq m a (inv_n_pos hm ha)]
+    refine ⟨by nlinarith, by nlinarith, by nlinarith⟩
+  obtain ⟨_, _, _, hax⟩ := getRegion_smallest m hm item hbox g h
+  intro a ha
+  obtain ⟨i1, i2, hle, hlt, q1, q2, q3, q4, q5, q6, q7, q8⟩ := hax a ha
+  obtain ⟨t1, t2, t3, t4⟩ := hal.2.2 a ha
+  have hc := inv_cell_pos hm ha
+  rw [q1, t3] at q5 q7
+  rw [q2, t4] at q6 q8
+  have a1 : (i1 : Rat) ≤ (k1 a : Rat) := by
+    by_contra hcon; rw [not_le] at hcon
+    have := mul_lt_mul_of_pos_right hcon hc; linarith
+  have a2 : (k1 a : Rat) < (i1 : Rat) + 1 := by
+    by_contra hcon; rw [not_lt] at hcon
+    have := mul_le_mul_of_nonneg_right hcon hc.le; linarith
+  have a3 : (k2 a : Rat) ≤ (i2 : Rat) + 1 := by
+    by_contra hcon; rw [not_le] at hcon
+    have := mul_lt_mul_of_pos_right hcon hc; linarith
+  have a4 : (i2 : Rat) < (k2 a : Rat) := by
+    by_contra hcon; rw [not_lt] at hcon
+    have := mul_le_mul_of_nonneg_right hcon hc.le; linarith
+  have n1 : i1 ≤ k1 a := by exact_mod_cast a1
+  have n2 : k1 a < i1 + 1 := by exact_mod_cast a2
+  have n3 : k2 a ≤ i2 + 1 := by exact_mod_cast a3
+  have n4 : i2 < k2 a := by exact_mod_cast a4
+  have e1 : i1 = k1 a := by omega
+  have e2 : i2 + 1 = k2 a := by omega
+  refine ⟨by rw [q1, t3, e1], ?_, by rw [q3]; omega⟩
+  rw [q2, t4, ← e2]; push_cast; ring
+
+/-- `field[region]`: the centre of every result cell lies in the source region, in the source
+cell `i₁ + j`, and the result holds exactly that cell's value and validity. -/
+theorem getitem_region_pointwise (f : Fld) (hf : FldWF f) (item : Region) (hbox : BoxIn f.mesh item)
+    (g : Fld) (h : getItem f (.region item) = .ok g) :
+    getRegion f.mesh item = .ok g.mesh ∧
+    ∀ j, inRange g.mesh.n j = true →
+      f.mesh.point2index (g.mesh.centre j)
+        = .ok (tab f.mesh.ndim fun b => blockLo f.mesh item b + j.getD b 0) ∧
+      g.data.get j = f.data.get (tab f.mesh.ndim fun b => blockLo f.mesh item b + j.getD b 0) ∧
+      g.valid.get j = f.valid.get (tab f.mesh.ndim fun b => blockLo f.mesh item b + j.getD b 0) := by
+  have hsm : ∃ sm, getMesh f.mesh (.region item) = .ok sm := by
+    unfold getItem at h
+    cases hh : getMesh f.mesh (.region item) with
+    | error e => rw [hh] at h; cases h
+    | ok sm => exact ⟨sm, rfl⟩
+  obtain ⟨sm, hsm⟩ := hsm
+  have hsm' : getRegion f.mesh item = .ok sm := hsm
+  obtain ⟨e1, e2, _, _, _, _, _, _, e9⟩ := getRegion_inv f.mesh hf.1 item hbox sm hsm'
+  obtain ⟨r1, r2⟩ := getItem_block f hf (.region item) sm hsm e1 e2
+    (blockLo f.mesh item) (fun b => blockHi f.mesh item b - blockLo f.mesh item b + 1)
+    (fun b _ => by omega) (fun b hb => (e9 b hb).2.2.2) g h
+  exact ⟨by rw [r1]; exact hsm', r2⟩
+
+/-- `field[name]` for a subregion made of whole cells `k₁ … k₂-1`: the result mesh is the
+subregion itself, and every result cell `j` holds value and validity of source cell `k₁ + j`,
+the cell containing the result cell's centre. -/
+theorem getitem_name_pointwise (f : Fld) (hf : FldWF f) (name : String) (s : Region)
+    (hfind : findSub f.mesh.subs name = some s) (k1 k2 : Nat → Nat) (hal : SubAligned f.mesh s k1 k2)
+    (g : Fld) (h : getItem f (.name name) = .ok g) :
+    g.mesh.region = s ∧
+    ∀ j, inRange g.mesh.n j = true →
+      f.mesh.point2index (g.mesh.centre j) = .ok (tab f.mesh.ndim fun b => k1 b + j.getD b 0) ∧
+      g.data.get j = f.data.get (tab f.mesh.ndim fun b => k1 b + j.getD b 0) ∧
+      g.valid.get j = f.valid.get (tab f.mesh.ndim fun b => k1 b + j.getD b 0) := by
+  have hsm : ∃ sm, getMesh f.mesh (.name name) = .ok sm := by
+    unfold getItem at h
+    cases hh : getMesh f.mesh (.name name) with
+    | error e => rw [hh] at h; cases h
+    | ok sm => exact ⟨sm, rfl⟩
+  obtain ⟨sm, hsm⟩ := hsm
+  have hsm' : getName f.mesh name = .ok sm := hsm
+  obtain ⟨e0, e1, e2, e3⟩ := getName_inv f.mesh hf.1 name s hfind k1 k2 hal sm hsm'
+  obtain ⟨r1, r2⟩ := getItem_block f hf (.name name) sm hsm e1 e2 k1 (fun b => k2 b - k1 b)
+    (fun b hb => by have := (hal.2.2 b hb).1; omega) e3 g h
+  exact ⟨by rw [r1]; exact e0, r2⟩
+
+/-- A missing subregion name and a box that is not inside the region (beyond the region's
+tolerance) are rejected. -/
+theorem getitem_outside_rejected (f : Fld) (item : Item)
+    (hout : (∃ n, item = .name n ∧ findSub f.mesh.subs n = none) ∨
+      (∃ r, item = .region r ∧ f.mesh.region.containsReg r = false)) :
+    (∃ e, getMesh f.mesh item = .error e) ∧ (∃ e, getItem f item = .error e) := by
+  have key : ∃ e, getMesh f.mesh item = .error e := by
+    rcases hout with ⟨n, hi, hn⟩ | ⟨r, hi, hr⟩
+    · subst hi; exact ⟨.key, by show getName f.mesh n = _; unfold getName; rw [hn]⟩
+    · subst hi; exact ⟨.value, by show getRegion f.mesh r = _; unfold getRegion; rw [hr]; rfl⟩
+  obtain ⟨e, he⟩ := key
+  exact ⟨⟨e, he⟩, ⟨e, by unfold getItem; rw [he]⟩⟩
+
+/-- `region2slices` of a sub-box made of whole cells `k₁ … k₂-1`: the slices are `k₁ : k₂`, and
+these are exactly the cells whose centre lies in the box. -/
+theorem region2slices_spec (m : Mesh) (hm : m.Inv) (r : Region) (k1 k2 : Nat → Nat)
+    (hal : SubAligned m r k1 k2) :
+    region2slices m r = .ok (tab m.ndim fun a => (k1 a, k2 a)) ∧
+    ∀ a, a < m.ndim → ∀ i : Nat,
+      (k1 a ≤ i ∧ i < k2 a) ↔ (r.lo a ≤ m.centreAx a (i : Int) ∧ m.centreAx a (i : Int) ≤ r.hi a) := by
+  obtain ⟨s1, s2, s3⟩ := hal
+  constructor
+  · unfold region2slices
+    rw [if_neg (by simp [s1])]
+    have hfacts : ∀ a, a < m.ndim →
+        m.indexAx a (r.lo a + m.cellAt a / 2) = k1 a ∧
+        m.indexAx a (r.hi a - m.cellAt a / 2) + 1 = k2 a ∧
+        m.region.lo a ≤ r.lo a + m.cellAt a / 2 ∧ r.lo a + m.cellAt a / 2 ≤ m.region.hi a ∧
+        m.region.lo a ≤ r.hi a - m.cellAt a / 2 ∧ r.hi a - m.cellAt a / 2 ≤ m.region.hi a := by
+      intro a ha
+      obtain ⟨t1, t2, t3, t4⟩ := s3 a ha
+      have hc := inv_cell_pos hm ha
+      have h12 : (k1 a : Rat) + 1 ≤ (k2 a : Rat) := by exact_mod_cast t1
+      have h2n : (k2 a : Rat) ≤ (m.nAt a : Rat) := by exact_mod_cast t2
+      have h0 : (0 : Rat) ≤ (k1 a : Rat) := by exact_mod_cast Nat.zero_le _
+      have hk2 : ((k2 a - 1 : Nat) : Rat) = (k2 a : Rat) - 1 := by
+        push_cast [Nat.cast_sub (by omega : 1 ≤ k2 a)]; ring
+      refine ⟨?_, ?_, ?_, ?_, ?_, ?_⟩
+      · apply indexAx_eq_of_bounds m a _ (k1 a) (by omega) hc <;> rw [t3] <;> nlinarith
+      · have : m.indexAx a (r.hi a - m.cellAt a / 2) = k2 a - 1 := by
+          apply indexAx_eq_of_bounds m a _ (k2 a - 1) (by omega) hc <;> rw [t4, hk2] <;> nlinarith
+        rw [this]; omega
+      · rw [t3]; nlinarith
+      · rw [t3, hi_eq m a (inv_n_pos hm ha)]; nlinarith
+      · rw [t4]; nlinarith
+      · rw [t4, hi_eq m a (inv_n_pos hm ha)]; nlinarith
+    rw [point2index_eq m _ (by simp) (by
+      intro a ha
+      rw [getD_tab _ _ _ _ ha]
+      exact ⟨(hfacts a ha).2.2.1, (hfacts a ha).2.2.2.1⟩)]
+    simp only
+    rw [point2index_eq m _ (by simp) (by
+      intro a ha
+      rw [getD_tab _ _ _ _ ha]
+      exact ⟨(hfacts a ha).2.2.2.2.1, (hfacts a ha).2.2.2.2.2⟩)]
+    simp only
+    congr 1
+    apply tab_congr
+    intro a ha
+    rw [getD_tab _ _ _ _ ha, getD_tab _ _ _ _ ha, getD_tab _ _ _ _ ha, getD_tab _ _ _ _ ha,
+      (hfacts a ha).1, (hfacts a ha).2.1]
+  · intro a ha i
+    obtain ⟨t1, t2, t3, t4⟩ := s3 a ha
+    have hc := inv_cell_pos hm ha
+    rw [centreAx_cast, t3, t4]
+    constructor
+    · rintro ⟨h1, h2⟩
+      have h1' : (k1 a : Rat) ≤ (i : Rat) := by exact_mod_cast h1
+      have h2' : (i : Rat) + 1 ≤ (k2 a : Rat) := by exact_mod_cast h2
+      constructor <;> nlinarith
+    · rintro ⟨h1, h2⟩
+      have a1 : (k1 a : Rat) < (i : Rat) + 1 := by
+        by_contra hcon; rw [not_lt] at hcon
+        have := mul_le_mul_of_nonneg_right hcon hc.le; nlinarith
+      have a2 : (i : Rat) < (k2 a : Rat) := by
+        by_contra hcon; rw [not_lt] at hcon
+        have := mul_le_mul_of_nonneg_right hcon hc.le; nlinarith
+      have n1 : k1 a < i + 1 := by exact_mod_cast a1
+      have n2 : i < k2 a := by exact_mod_cast a2
+      omega
+
+/-! ## Padding -/
+
+/-- `Mesh.pad` adds exactly the requested number of cells per side: `n' = n + L + H` on every
+axis (`L`, `H` the widths requested for that axis, 0 if not named), the corners move by whole
+cells, the cell size, names, units and tolerance are kept, the boundary condition is kept. -/
+theorem pad_counts (m : Mesh) (hm : m.Inv) (pw : List PadW)
+    (hL : ∀ b, b < m.ndim → 0 ≤ sumW m (·.lo) pw b) (hH : ∀ b, b < m.ndim → 0 ≤ sumW m (·.hi) pw b)
+    (g : Mesh) (h : padMesh m pw = .ok g) :
+    g.ndim = m.ndim ∧ g.region.dims = m.region.dims ∧ g.region.units = m.region.units ∧
+    g.region.tol = m.region.tol ∧ g.bc = m.bc.toLower ∧
+    ∀ b, b < m.ndim →
+      g.nAt b = m.nAt b + (sumW m (·.lo) pw b).toNat + (sumW m (·.hi) pw b).toNat ∧
+      g.region.lo b = m.region.lo b - ((sumW m (·.lo) pw b).toNat : Rat) * m.cellAt b ∧
+      g.region.hi b = m.region.hi b + ((sumW m (·.hi) pw b).toNat : Rat) * m.cellAt b ∧
+      g.cellAt b = m.cellAt b := by
+  obtain ⟨e1, _, e3, e4, e5, e6, _, e8⟩ := padMesh_inv m hm pw hL hH g h
+  refine ⟨e1, e3, e4, e5, e6, ?_⟩
+  intro b hb
+  obtain ⟨h1, h2, h3, blk⟩ := e8 b hb
+  exact ⟨h1, h2, h3, blk.cell.symm⟩
+
+/-- `Field.pad` pads data and validity by the same widths as the mesh, with the index map of
+the chosen mode; cells that hit the constant fill get zeros / `False`. -/
+theorem pad_rule (f : Fld) (hf : FldWF f) (pw : List PadW) (hnd : (pw.map (·.dim)).Nodup)
+    (mode : PadMode) (g : Fld) (h : padFld f pw mode = .ok g) (j : List Nat) :
+    padMesh f.mesh pw = .ok g.mesh ∧
+    g.data.get j = (match padSrcIdx mode f.mesh.n
+        (fun b => (sumW f.mesh (·.lo) pw b, sumW f.mesh (·.hi) pw b)) j with
+      | some i => f.data.get i
+      | none => List.replicate f.nvdim 0) ∧
+    g.valid.get j = (match padSrcIdx mode f.mesh.n
+        (fun b => (sumW f.mesh (·.lo) pw b, sumW f.mesh (·.hi) pw b)) j with
+      | some i => f.valid.get i
+      | none => false) := by
+  obtain ⟨p1, _, p3, p4⟩ := padFld_inv f hf pw hnd mode g h
+  refine ⟨p1, ?_, ?_⟩
+  · rw [p3]; unfold padNDA; simp only; rw [hf.2.1]; rfl
+  · rw [p4]; unfold padNDA; simp only; rw [hf.2.2]; rfl
+
+/-- Cells of the padded field whose centre lies inside the source: the centre of result cell
+`j` is the centre of source cell `j - L`, and the result holds that cell's value and validity —
+whatever the mode. -/
+theorem pad_inside_pointwise (f : Fld) (hf : FldWF f) (pw : List PadW) (hnd : (pw.map (·.dim)).Nodup)
+    (mode : PadMode) (g : Fld) (h : padFld f pw mode = .ok g) (j : List Nat)
+    (hin : ∀ b, b < f.mesh.ndim →
+      (sumW f.mesh (·.lo) pw b).toNat ≤ j.getD b 0 ∧
+      j.getD b 0 < (sumW f.mesh (·.lo) pw b).toNat + f.mesh.nAt b) :
+    f.mesh.point2index (g.mesh.centre j)
+      = .ok (tab f.mesh.ndim fun b => j.getD b 0 - (sumW f.mesh (·.lo) pw b).toNat) ∧
+    g.data.get j = f.data.get (tab f.mesh.ndim fun b => j.getD b 0 - (sumW f.mesh (·.lo) pw b).toNat) ∧
+    g.valid.get j = f.valid.get (tab f.mesh.ndim fun b => j.getD b 0 - (sumW f.mesh (·.lo) pw b).toNat) := by
+  obtain ⟨p1, p2, _, _⟩ := padFld_inv f hf pw hnd mode g h
+  obtain ⟨_, r2, r3⟩ := pad_rule f hf pw hnd mode g h j
+  obtain ⟨hinv, hds, hvs⟩ := hf
+  obtain ⟨e1, _, _, _, _, _, _, e8⟩ := padMesh_inv f.mesh hinv pw (fun b _ => (p2 b).1) (fun b _ => (p2 b).2) g.mesh p1
+  have hsrc : padSrcIdx mode f.mesh.n (fun b => (sumW f.mesh (·.lo) pw b, sumW f.mesh (·.hi) pw b)) j
+      = some (tab f.mesh.ndim fun b => j.getD b 0 - (sumW f.mesh (·.lo) pw b).toNat) := by
+    unfold padSrcIdx
+    rw [inv_n_length hinv]
+    have hs : ∀ b, b < f.mesh.ndim →
+        padSrc mode (f.mesh.n.getD b 0) (sumW f.mesh (·.lo) pw b).toNat (j.getD b 0)
+          = some (j.getD b 0 - (sumW f.mesh (·.lo) pw b).toNat) :=
+      fun b hb => padSrc_inside mode _ _ _ (hin b hb).1 (hin b hb).2
+    have hall : allLt f.mesh.ndim (fun b =>
+        (padSrc mode (f.mesh.n.getD b 0) (sumW f.mesh (·.lo) pw b).toNat (j.getD b 0)).isSome) = true := by
+      rw [allLt_iff]; intro b hb; rw [hs b hb]; rfl
+    simp only
+    rw [if_pos hall]
+    congr 1
+    apply tab_congr
+    intro b hb
+    rw [hs b hb]; rfl
+  rw [hsrc] at r2 r3
+  refine ⟨?_, r2, r3⟩
+  have hfacts : ∀ b, b < f.mesh.ndim →
+      f.mesh.indexAx b ((g.mesh.centre j).getD b 0) = j.getD b 0 - (sumW f.mesh (·.lo) pw b).toNat ∧
+      f.mesh.region.lo b ≤ (g.mesh.centre j).getD b 0 ∧ (g.mesh.centre j).getD b 0 ≤ f.mesh.region.hi b := by
+    intro b hb
+    obtain ⟨_, _, _, blk⟩ := e8 b hb
+    have hc := inv_cell_pos hinv hb
+    have hlt : j.getD b 0 - (sumW f.mesh (·.lo) pw b).toNat < f.mesh.nAt b := by have := hin b hb; omega
+    have hcen := block_centre blk (j.getD b 0 - (sumW f.mesh (·.lo) pw b).toNat)
+    have hsum : (sumW f.mesh (·.lo) pw b).toNat + (j.getD b 0 - (sumW f.mesh (·.lo) pw b).toNat) = j.getD b 0 := by
+      have := (hin b hb).1; omega
+    rw [hsum] at hcen
+    rw [centre_getD g.mesh j b (by omega), ← hcen]
+    exact ⟨roundtrip f.mesh b _ hlt hc, centre_bounds f.mesh b _ hlt hc⟩
+  rw [point2index_eq f.mesh _ (by rw [centre_length, e1]) (fun b hb => (hfacts b hb).2)]
+  congr 1
+  exact tab_congr _ _ _ (fun b hb => (hfacts b hb).1)
+
+/-- mode `constant`: a position outside the source takes the fill value -/
+theorem padSrc_constant (n lo j : Nat) (hout : ¬ (lo ≤ j ∧ j < lo + n)) :
+    padSrc .constant n lo j = none := by
+  unfold padSrc; rw [if_neg hout]
+
+/-- mode `edge`: a position outside the source takes the nearest source cell -/
+theorem padSrc_edge (n lo j : Nat) (hout : ¬ (lo ≤ j ∧ j < lo + n)) :
+    padSrc .edge n lo j = some (if j < lo then 0 else n - 1) := by
+  unfold padSrc; rw [if_neg hout]
+  simp only
+  split <;> rfl
+
+/-- mode `wrap` is the periodic continuation: the source cell `i` used at position `j` differs
+from `j - lo` by a whole number of periods `n` — in physical terms the two cell centres are a
+whole number of edge lengths apart. -/
+theorem padSrc_wrap (n lo j : Nat) (hn : 0 < n) :
+    ∃ i, padSrc .wrap n lo j = some i ∧ i < n ∧ ∃ k : Int, (j : Int) - (lo : Int) = (i : Int) + k * (n : Int) := by
+  have hnz : (n : Int) ≠ 0 := by omega
+  have hpos : (0 : Int) < (n : Int) := by omega
+  by_cases hin : lo ≤ j ∧ j < lo + n
+  · refine ⟨j - lo, padSrc_inside _ _ _ _ hin.1 hin.2, by omega, 0, by omega⟩
+  · refine ⟨(((j : Int) - (lo : Int)) % (n : Int)).toNat, ?_, ?_, ((j : Int) - (lo : Int)) / (n : Int), ?_⟩
+    · unfold padSrc; rw [if_neg hin]
+    · have h1 := Int.emod_lt_of_pos ((j : Int) - (lo : Int)) hpos
+      have h0 := Int.emod_nonneg ((j : Int) - (lo : Int)) hnz
+      omega
+    · have h0 := Int.emod_nonneg ((j : Int) - (lo : Int)) hnz
+      rw [Int.toNat_of_nonneg h0]
+      have := Int.emod_add_mul_ediv ((j : Int) - (lo : Int)) (n : Int)
+      rw [Int.mul_comm] at this
+      omega
+
+/-- mode `symmetric` is the mirror continuation about the boundary faces: position `j` shows
+source cell `i` where either `j - lo = i` modulo `2n` (even image) or `j - lo = -1 - i` modulo
+`2n` (mirror image: the two cell centres are symmetric about a face `lo + K·n`). -/
+theorem padSrc_symmetric (n lo j : Nat) (hn : 0 < n) :
+    ∃ i, padSrc .symmetric n lo j = some i ∧ i < n ∧
+      ∃ k : Int, (j : Int) - (lo : Int) = (i : Int) + k * (2 * (n : Int)) ∨
+                 (j : Int) - (lo : Int) = -1 - (i : Int) + k * (2 * (n : Int)) := by
+  have hnz : (2 * (n : Int)) ≠ 0 := by omega
+  have hpos : (0 : Int) < 2 * (n : Int) := by omega
+  by_cases hin : lo ≤ j ∧ j < lo + n
+  · refine ⟨j - lo, padSrc_inside _ _ _ _ hin.1 hin.2, by omega, 0, Or.inl (by omega)⟩
+  · have h1 := Int.emod_lt_of_pos ((j : Int) - (lo : Int)) hpos
+    have h0 := Int.emod_nonneg ((j : Int) - (lo : Int)) hnz
+    have hdiv := Int.emod_add_mul_ediv ((j : Int) - (lo : Int)) (2 * (n : Int))
+    by_cases hlt : (((j : Int) - (lo : Int)) % (2 * (n : Int))) < (n : Int)
+    · refine ⟨(((j : Int) - (lo : Int)) % (2 * (n : Int))).toNat, ?_, by omega,
+        ((j : Int) - (lo : Int)) / (2 * (n : Int)), Or.inl ?_⟩
+      · unfold padSrc; rw [if_neg hin]; simp only; rw [if_pos hlt]
+      · rw [Int.toNat_of_nonneg h0]
+        rw [Int.mul_comm] at hdiv; omega
+    · refine ⟨(2 * (n : Int) - 1 - (((j : Int) - (lo : Int)) % (2 * (n : Int)))).toNat, ?_, by omega,
+        ((j : Int) - (lo : Int)) / (2 * (n : Int)) + 1, Or.inr ?_⟩
+      · unfold padSrc; rw [if_neg hin]; simp only; rw [if_neg hlt]
+      · rw [Int.toNat_of_nonneg (by omega)]
+        rw [Int.mul_comm] at hdiv
+        have : (((j : Int) - (lo : Int)) / (2 * (n : Int)) + 1) * (2 * (n : Int))
+            = ((j : Int) - (lo : Int)) / (2 * (n : Int)) * (2 * (n : Int)) + 2 * (n : Int) := by ring
+        omega
+
+/-- mode `reflect` is the mirror continuation about the centres of the boundary cells: period
+`2n - 2`, `j - lo = ± i` modulo the period (for a single-cell axis numpy repeats the cell). -/
+theorem padSrc_reflect (n lo j : Nat) (hn : 2 ≤ n) :
+    ∃ i, padSrc .reflect n lo j = some i ∧ i < n ∧
+      ∃ k : Int, (j : Int) - (lo : Int) = (i : Int) + k * (2 * (n : Int) - 2) ∨
+                 (j : Int) - (lo : Int) = -(i : Int) + k * (2 * (n : Int) - 2) := by
+  have hnz : (2 * (n : Int) - 2) ≠ 0 := by omega
+  have hpos : (0 : Int) < 2 * (n : Int) - 2 := by omega
+  have hn1 : ¬ n = 1 := by omega
+  by_cases hin : lo ≤ j ∧ j < lo + n
+  · refine ⟨j - lo, padSrc_inside _ _ _ _ hin.1 hin.2, by omega, 0, Or.inl (by omega)⟩
+  · have h1 := Int.emod_lt_of_pos ((j : Int) - (lo : Int)) hpos
+    have h0 := Int.emod_nonneg ((j : Int) - (lo : Int)) hnz
+    have hdiv := Int.emod_add_mul_ediv ((j : Int) - (lo : Int)) (2 * (n : Int) - 2)
+    by_cases hlt : (((j : Int) - (lo : Int)) % (2 * (n : Int) - 2)) < (n : Int)
+    · refine ⟨(((j : Int) - (lo : Int)) % (2 * (n : Int) - 2)).toNat, ?_, by omega,
+        ((j : Int) - (lo : Int)) / (2 * (n : Int) - 2), Or.inl ?_⟩
+      · unfold padSrc; rw [if_neg hin]; simp only; rw [if_neg hn1, if_pos hlt]
+      · rw [Int.toNat_of_nonneg h0]
+        rw [Int.mul_comm] at hdiv; omega
+    · refine ⟨(2 * (n : Int) - 2 - (((j : Int) - (lo : Int)) % (2 * (n : Int) - 2))).toNat, ?_, by omega,
+        ((j : Int) - (lo : Int)) / (2 * (n : Int) - 2) + 1, Or.inr ?_⟩
+      · unfold padSrc; rw [if_neg hin]; simp only; rw [if_neg hn1, if_neg hlt]
+      · rw [Int.toNat_of_nonneg (by omega)]
+        rw [Int.mul_comm] at hdiv
+        have : (((j : Int) - (lo : Int)) / (2 * (n : Int) - 2) + 1) * (2 * (n : Int) - 2)
+            = ((j : Int) - (lo : Int)) / (2 * (n : Int) - 2) * (2 * (n : Int) - 2) + (2 * (n : Int) - 2) := by ring
+        omega
+
+/-- The index statement of `padSrc_wrap` in physical terms: if source cell `i` is shown at
+position `j` of an axis padded by `L` cells in front, with `j - L = i + k·n`, then the two cell
+centres are exactly `k` edge lengths apart. -/
+theorem pad_wrap_physical (f g : Mesh) (b L : Nat) (hn : 0 < f.nAt b)
+    (blk : AxisBlock f g b b L (f.nAt b)) (i j : Nat) (k : Int)
+    (hk : (j : Int) - (L : Int) = (i : Int) + k * (f.nAt b : Int)) :
+    g.centreAx b (j : Int) = f.centreAx b (i : Int) + (k : Rat) * (f.region.hi b - f.region.lo b) := by
+  have hj : (j : Rat) = (L : Rat) + (i : Rat) + (k : Rat) * (f.nAt b : Rat) := by
+    have : (j : Int) = (L : Int) + (i : Int) + k * (f.nAt b : Int) := by omega
+    exact_mod_cast this
+  rw [← cover f b hn, centreAx_cast, centreAx_cast, blk.lo, ← blk.cell, hj]; ring
+
+/-! ## Resampling -/
+
+/-- `Field.resample n` keeps the region (corners, names, units, tolerance) and has exactly the
+requested cell counts. -/
+theorem resample_region (f : Fld) (n : List Int) (g : Fld) (h : resample f n = .ok g) :
+    g.mesh.region = f.mesh.region ∧ g.mesh.n = n.map Int.toNat ∧ n.length = f.mesh.ndim ∧
+    (∀ k, k ∈ n → 0 < k) := by
+  unfold resample at h
+  split at h
+  · cases h
+  · split at h
+    · cases h
+    · rename_i hlen hpos
+      split at h
+      · cases h
+      · rename_i m' hm'
+        split at h
+        · cases h
+        · obtain ⟨q1, _, _, _⟩ := mkFld_inv _ _ _ _ _ h
+          unfold Mesh.mkN? at hm'
+          split at hm'
+          · cases hm'
+          · split at hm'
+            · cases hm'
+            · split at hm'
+              · cases hm'
+              · injection hm' with hm'
+                subst hm'
+                refine ⟨by rw [q1], by rw [q1], by omega, ?_⟩
+                intro k hk
+                by_contra hcon
+                apply hpos
+                rw [List.any_eq_true]
+                exact ⟨k, hk, by simpa using hcon⟩
+
+/-- Nearest-cell resampling is point sampling: the centre of every result cell lies in the
+source region, and the result holds value and validity of the source cell containing that
+centre (the lookup of the nearest source centre finds exactly that cell). -/
+theorem resample_pointwise (f : Fld) (hf : FldWF f) (n : List Int) (g : Fld) (h : resample f n = .ok g) :
+    ∀ j, inRange g.mesh.n j = true →
+      f.mesh.point2index (g.mesh.centre j)
+        = .ok (tab f.mesh.ndim fun b => f.mesh.indexAx b (g.mesh.centreAx b ((j.getD b 0 : Nat) : Int))) ∧
+      g.data.get j = f.data.get
+        (tab f.mesh.ndim fun b => f.mesh.indexAx b (g.mesh.centreAx b ((j.getD b 0 : Nat) : Int))) ∧
+      g.valid.get j = f.valid.get
+        (tab f.mesh.ndim fun b => f.mesh.indexAx b (g.mesh.centreAx b ((j.getD b 0 : Nat) : Int))) := by
+  obtain ⟨r1, r2, r3, r4⟩ := resample_region f n g h
+  obtain ⟨hinv, hds, hvs⟩ := hf
+  -- the target mesh is well formed
+  have hgn : g.mesh.ndim = f.mesh.ndim := by unfold Mesh.ndim; rw [r1]
+  have hginv : g.mesh.Inv := by
+    refine ⟨by rw [r1]; exact hinv.1, by rw [r2, List.length_map, r3]; exact hgn.symm, ?_⟩
+    intro b hb
+    rw [nAt_def, r2, List.getD_eq_getElem?_getD, List.getElem?_map]
+    have hb' : b < n.length := by omega
+    rw [List.getElem?_eq_getElem hb']
+    simp only [Option.map_some, Option.getD_some]
+    have := r4 n[b] (List.getElem_mem hb')
+    omega
+  unfold resample at h
+  rw [if_neg (by omega : ¬ n.length ≠ f.mesh.ndim)] at h
+  split at h
+  · cases h
+  · split at h
+    · cases h
+    · rename_i m' hm'
+      split at h
+      · cases h
+      · obtain ⟨q1, q2, q3, _⟩ := mkFld_inv _ _ _ _ _ h
+        intro j hj
+        have hjb : ∀ b, b < f.mesh.ndim → j.getD b 0 < g.mesh.nAt b := fun b hb =>
+          inRange_getD _ _ hj b (by rw [inv_n_length hginv]; omega)
+        have hcb : ∀ b, b < f.mesh.ndim →
+            f.mesh.region.lo b ≤ g.mesh.centreAx b ((j.getD b 0 : Nat) : Int) ∧
+            g.mesh.centreAx b ((j.getD b 0 : Nat) : Int) ≤ f.mesh.region.hi b := by
+          intro b hb
+          have := centre_bounds g.mesh b _ (hjb b hb) (inv_cell_pos hginv (by omega))
+          rw [r1] at this
+          exact this
+        have hnear : (tab f.mesh.ndim fun a => nearestAx f.mesh a (coord g.mesh a (j.getD a 0)))
+            = tab f.mesh.ndim fun b => f.mesh.indexAx b (g.mesh.centreAx b ((j.getD b 0 : Nat) : Int)) := by
+          apply tab_congr
+          intro b hb
+          rw [coord_eq g.mesh hginv b (by omega) _ (hjb b hb)]
+          exact nearestAx_eq_indexAx f.mesh hinv b hb _ (hcb b hb).1 (hcb b hb).2
+        refine ⟨?_, ?_, ?_⟩
+        · rw [point2index_eq f.mesh _ (by rw [centre_length, hgn]) (by
+            intro b hb
+            rw [centre_getD g.mesh j b (by omega)]
+            exact hcb b hb)]
+          congr 1
+          apply tab_congr
+          intro b hb
+          rw [centre_getD g.mesh j b (by omega)]
+        · rw [q2]
+          show f.data.get (tab f.mesh.ndim fun a => nearestAx f.mesh a (coord m' a (j.getD a 0))) = _
+          rw [← q1, hnear]
+        · rw [q3]
+          show f.valid.get (tab f.mesh.ndim fun a => nearestAx f.mesh a (coord m' a (j.getD a 0))) = _
+          rw [← q1, hnear]
+
+/-- Resampling to the same cell counts returns the same field: same region, same counts, and
+every cell keeps its value and validity. -/
+theorem resample_id (f : Fld) (hf : FldWF f) (g : Fld)
+    (h : resample f (f.mesh.n.map Int.ofNat) = .ok g) :
+    g.mesh.region = f.mesh.region ∧ g.mesh.n = f.mesh.n ∧
+    ∀ j, inRange f.mesh.n j = true → g.data.get j = f.data.get j ∧ g.valid.get j = f.valid.get j := by
+  obtain ⟨r1, r2, _, _⟩ := resample_region f _ g h
+  have hn : g.mesh.n = f.mesh.n := by
+    rw [r2, List.map_map]
+    have : (Int.toNat ∘ Int.ofNat) = id := by funext k; simp
+    rw [this, List.map_id]
+  refine ⟨r1, hn, ?_⟩
+  intro j hj
+  have hj' : inRange g.mesh.n j = true := by rw [hn]; exact hj
+  obtain ⟨_, p2, p3⟩ := resample_pointwise f hf _ g h j hj'
+  have hinv := hf.1
+  have hidx : (tab f.mesh.ndim fun b => f.mesh.indexAx b (g.mesh.centreAx b ((j.getD b 0 : Nat) : Int))) = j := by
+    symm
+    apply eq_tab_of_getD _ _ _ 0 (by rw [inRange_length _ _ hj, inv_n_length hinv])
+    intro b hb
+    have hjb : j.getD b 0 < f.mesh.nAt b := inRange_getD _ _ hj b (by rw [inv_n_length hinv]; exact hb)
+    have hcen : g.mesh.centreAx b ((j.getD b 0 : Nat) : Int) = f.mesh.centreAx b ((j.getD b 0 : Nat) : Int) := by
+      unfold centreAx cellAt nAt
+      rw [r1, hn]
+    rw [hcen, roundtrip f.mesh b _ hjb (inv_cell_pos hinv hb)]
+  rw [hidx] at p2 p3
+  exact ⟨p2, p3⟩
+
+/-- Malformed target resolutions (wrong number of entries, a zero or negative count) are rejected. -/
+theorem resample_rejects (f : Fld) (n : List Int)
+    (hbad : n.length ≠ f.mesh.ndim ∨ ∃ k, k ∈ n ∧ k ≤ 0) : ∃ e, resample f n = .error e := by
+  unfold resample
+  by_cases hl : n.length ≠ f.mesh.ndim
+  · exact ⟨_, by rw [if_pos hl]⟩
+  · rw [if_neg hl]
+    rcases hbad with h | ⟨k, hk, hk0⟩
+    · exact absurd h hl
+    · have : (n.any fun k => decide (k ≤ 0)) = true := by
+        rw [List.any_eq_true]; exact ⟨k, hk, by simpa using hk0⟩
+      exact ⟨_, by rw [if_pos this]⟩
 
 end DFV.C07
